@@ -365,6 +365,10 @@ class Ctx:
               "known_findings_seen": self.known}
         # X.. ids are extensions of the specification beyond the listed properties: their evidence lives apart
         edir = "evidence_extra" if self.pid.startswith("X") else "evidence"
+        if os.path.realpath(REPO) != "/repo":
+            # a run against another checkout (a scratch worktree with a seeded change, VERIF_REPO) says nothing about /repo:
+            # its evidence goes next to the replays (not committed), never into /verif/evidence
+            edir = os.path.join("replays", "evidence_other_checkout")
         os.makedirs(os.path.join(VERIF, edir), exist_ok=True)
         p = os.path.join(VERIF, edir, self.pid + ".json")
         json.dump(ev, open(p + ".tmp", "w"), indent=1)
